@@ -283,6 +283,9 @@ func (s *Sim) fail(rs *reqState, code, format string, args ...interface{}) {
 				k = "spend"
 			}
 			if way == "mixed-catch-up" {
+				if dispatcherMirrorStale() {
+					s.R.Unjudged("depends on the mirrored dispatcher control flow, which no longer matches the tree")
+				}
 				s.R.FailSig("catch-up-mixes-branches", k, "%s [backend glue: while catching up after missed blocks, HandleMissedBlocks filled the gap with blocks of the backend's CURRENT chain and the dispatcher then connected the announced block %v, which by then belonged to another branch, on top of them without checking that it extends them; the TxNotifier was fed a sequence that is no chain and what it recorded for the transactions concerned stays wrong; consequence class %s]", msg, blk, code)
 			}
 			s.R.FailSig("rewind-adopts-foreign-best", k, "%s [backend glue: RewindChain took the hash of the new best block from the backend's CURRENT chain, which had already switched branches, so the dispatcher adopted a block the TxNotifier never saw; the disconnect of %v, the block the TxNotifier really has at that height, was then lost (RPC error or missed notification), and HandleMissedBlocks sees nothing to rewind because the dispatcher's best hash is on the active chain; consequence class %s]", msg, blk, code)
